@@ -20,7 +20,7 @@ type c07sys struct {
 	w *world
 }
 
-func (g *gen) c07start(w *world, pattern int, version int, polExtra int) *c07sys {
+func (g *gen) c07start(w *world, pattern int, version int, polExtra int, prelude int) *c07sys {
 	w.parties = map[string]*party{}
 	w.dead = false
 	pol := 2
@@ -34,6 +34,25 @@ func (g *gen) c07start(w *world, pattern int, version int, polExtra int) *c07sys
 		l.enqueue(b, []otr3.ValidMessage{w.query(b)})
 		l.settle(20)
 		w.tick(3600)
+	}
+	// preludes: the exchange under test restarts a conversation pair whose previous session was ended
+	// by one side, immediately (no time passes: the 60 s window after the last key exchange message
+	// must not swallow the restart). Abstractly this is the same start pattern.
+	if prelude > 0 {
+		l.enqueue(b, []otr3.ValidMessage{w.query(b)})
+		l.settle(20)
+		e, o := a, b
+		if prelude%2 == 0 {
+			e, o = b, a
+		}
+		ts, _ := w.end(e)
+		l.enqueue(e, ts)
+		l.settle(6) // o is now finished
+		if prelude >= 3 {
+			ts, _ = w.end(o)
+			l.enqueue(o, ts)
+			l.settle(6)
+		}
 	}
 	switch pattern {
 	case 1:
@@ -73,13 +92,13 @@ func (s *c07sys) describe() string {
 }
 
 // enumerate all maximal schedules by re-running from the start for every prefix extension
-func (g *gen) c07explore(w *world, pattern, version, polExtra int, budget *int) {
+func (g *gen) c07explore(w *world, pattern, version, polExtra, prelude int, budget *int) {
 	var rec func(prefix []bool)
 	rec = func(prefix []bool) {
 		if *budget <= 0 || len(prefix) > 14 {
 			return
 		}
-		s := g.c07start(w, pattern, version, polExtra)
+		s := g.c07start(w, pattern, version, polExtra, prelude)
 		for _, b := range prefix {
 			s.l.deliver(b)
 		}
@@ -109,7 +128,7 @@ func (g *gen) c07explore(w *world, pattern, version, polExtra int, budget *int) 
 				if sa.AkeState == 2 && sb.AkeState == 2 {
 					key = "ake-collision-deadlock"
 				}
-				olog.viol("C07", key, fmt.Sprintf("start pattern %d, OTRv%d, schedule %s ends quiescent in %s", pattern, version, sched, d))
+				olog.viol("C07", key, fmt.Sprintf("start pattern %d (prelude %d), OTRv%d, schedule %s ends quiescent in %s", pattern, prelude, version, sched, d))
 			}
 			return
 		}
@@ -131,7 +150,13 @@ func init() {
 		budget := n
 		for _, version := range []int{3, 2} {
 			for pattern := 1; pattern <= 8; pattern++ {
-				g.c07explore(w, pattern, version, 0, &budget)
+				g.c07explore(w, pattern, version, 0, 0, &budget)
+			}
+			// restarts of an ended session (either side ended it, the other finished or ended too)
+			for prelude := 1; prelude <= 4; prelude++ {
+				for _, pattern := range []int{1, 2} {
+					g.c07explore(w, pattern, version, 0, prelude, &budget)
+				}
 			}
 		}
 		extra["schedules"] = n - budget
